@@ -332,6 +332,9 @@ def run(ctx):
 
 def replay(rp):
     core.setup_paths()
+    if rp.get('kind') == 'byte_tamper':
+        from .. import c01_enc
+        return c01_enc.replay_byte(rp)
     if rp.get('kind') != 'tamper':
         return 2
     encs, macs, comps, eparams, mparams = registries()
